@@ -1,7 +1,8 @@
 ----------------------------- MODULE TraceFormat -----------------------------
 (* Direction 1 of C07 (library -> document): the bytes the real library wrote for a structure must be
    well-formed by the rules of SERIALIZATION.md (Format.tla) and must decode, by those rules alone,
-   into the logical content the structure was built from; the decoder must consume the whole file.
+   into the logical content the structure was built from; the decoder must consume the whole file;
+   and the library loads every such (well-formed) file of its own back into an equal value.
    Also: skip_option lands exactly behind each optional structure; absent_option writes one 0 element. *)
 EXTENDS Format, TraceCommon
 VARIABLES l
@@ -34,7 +35,7 @@ AbsentOK(j) == Rec[j].ok = TRUE /\ Rec[j].size = 1 /\ Rec[j].elems = << << >> >>
 \* The verdict of every event depends on the event alone, so all verdicts are computed at constant level
 \* (TLC evaluates constant definitions once, with caching of LET values; inside an action the same
 \* evaluation was measured to be about 1000 times slower).
-Verdict == [j \in 1..Len(Rec) |-> CASE Rec[j].e = "file" -> FileOK(j)
+Verdict == [j \in 1..Len(Rec) |-> CASE Rec[j].e = "file" -> FileOK(j) /\ Rec[j].reload = TRUE     \* a well-formed file loads
                                     [] Rec[j].e = "skip" -> SkipOK(j)
                                     [] Rec[j].e = "absent" -> AbsentOK(j)
                                     [] OTHER -> FALSE]
